@@ -30,7 +30,7 @@ ANCHORS = [
     ("tangelo/toolboxes/post_processing/post_selection.py", "post_select,strip_post_selection,split_frequency_dict,split_frequency_dict_for_last_n_digits", "marginalisation / post-selection helpers"),
     ("tangelo/toolboxes/post_processing/bootstrapping.py", "get_resampled_frequencies", "resampling and bitstring formatting"),
 ]
-REQUIRED = {"grouping_is_partition": 100, "term_diagonal_in_basis": 51, "assembled_expectation": 100, "map_measurements": 51, "histogram_conservation": 983, "marginal_expectation_unchanged": 180, "resample": 100, "split_conservation": 200}
+REQUIRED = {"histogram_history": 200, "grouping_is_partition": 100, "term_diagonal_in_basis": 51, "assembled_expectation": 100, "map_measurements": 51, "histogram_conservation": 983, "marginal_expectation_unchanged": 180, "resample": 100, "split_conservation": 200}
 BUDGET = {"quick": 200, "thorough": 1800}
 
 
@@ -38,6 +38,7 @@ def cases(tier, seed):
     out = [{"sub": "bigresample", "i": i} for i in range(1 if tier == "quick" else 3)]
     out += [{"sub": "group", "i": i} for i in range(128 if tier == "quick" else 4000)]
     out += [{"sub": "hist", "i": i} for i in range(256 if tier == "quick" else 16000)]
+    out += [{"sub": "hist_history", "i": i} for i in range(128 if tier == "quick" else 8000)]
     return out
 
 
@@ -55,6 +56,13 @@ def run_group(case, ctx):
     rng, pr, s = case_rng(ctx.seed, "C18", "group", case["i"])
     n = pr.randint(1, 6)
     terms = gen.random_qubit_terms(pr, n, pr.randint(1, 25), complex_coeffs=False)
+    cstyle = pr.choice(["real", "real", "complex", "some_imaginary"])
+    if cstyle == "complex":
+        terms = {t: complex(c, pr.uniform(-1, 1)) for t, c in terms.items()}
+    elif cstyle == "some_imaginary":
+        # anti-Hermitian pieces (generators, i[A,B]): coefficients with real part exactly zero
+        terms = {t: (complex(0.0, c) if pr.random() < 0.5 else c) for t, c in terms.items()}
+    ctx.tab("grouping_coefficients", cstyle)
     op = gen.to_qubit_operator(terms)
     terms = gen.terms_of(op)
     seed = pr.choice([None, 0, 1, pr.randint(0, 10 ** 6)])
@@ -86,8 +94,8 @@ def run_group(case, ctx):
     psi = gen.random_state(rng, n)
     hists = {b: exact_basis_hist(psi, n, b) for b in groups}
     got = exp_value_from_measurement_bases(groups, hists)
-    exact = refsim.expectation(terms, psi, n).real
-    ctx.check("assembled_expectation", abs(got - exact) < 1e-9, "expectation value assembled from per-basis histograms differs from the term-by-term value",
+    exact = refsim.expectation(terms, psi, n)
+    ctx.check("assembled_expectation", abs(complex(got) - exact) < 1e-9, "expectation value assembled from per-basis histograms differs from the term-by-term value",
               lambda: dict(wit, got=got, expected=exact))
     # compatibility map
     mm = map_measurements_qwc(groups)
@@ -291,5 +299,68 @@ def run_bigresample(case, ctx):
         ctx.nontrivial(("bigresample", ns, sorted(counts.items())))
 
 
+def run_hist_history(case, ctx):
+    """One Histogram object, a history of reads and in-place operations, against a shadow dictionary of counts: after every step the
+    counts, the total, the normalised frequencies and a Z-string expectation value are those of the shadow."""
+    from tangelo.toolboxes.post_processing.histogram import Histogram
+    rng, pr, s = case_rng(ctx.seed, "C18", "hist_history", case["i"])
+    n = pr.randint(2, 7)
+    shadow = rand_counts(pr, n, kmax=20)
+    h = Histogram(dict(shadow))
+    log = [["init", dict(shadow)]]
+
+    def z_expect(counts, qs):
+        tot = sum(counts.values())
+        return sum(v * (-1) ** sum(int(k[q]) for q in qs) for k, v in counts.items()) / tot
+
+    def observe(step):
+        nq = len(next(iter(shadow)))
+        tot = sum(shadow.values())
+        ok = h.counts == shadow and h.n_shots == tot and h.n_qubits == nq
+        fr = h.frequencies
+        ok = ok and abs(sum(fr.values()) - 1) < 1e-12 and close(fr, {k: v / tot for k, v in shadow.items()}, 1e-12)
+        qs = sorted(pr.sample(range(nq), pr.randint(0, nq)))
+        e = h.get_expectation_value(tuple((q, "Z") for q in qs), 1.0)
+        ok = ok and abs(e - z_expect(shadow, qs)) < 1e-12
+        ctx.check("histogram_history", ok, f"after {step} the histogram's counts / total / frequencies / expectation value are not those of the counts it holds",
+                  lambda: {"log": log, "counts": dict(h.counts), "n_shots": h.n_shots, "frequencies_sum": sum(fr.values()), "shadow": dict(shadow),
+                           "expectation": e, "expected_expectation": z_expect(shadow, qs), "word_qubits": qs})
+        return ok
+    for _ in range(pr.randint(2, 7)):
+        nq = len(next(iter(shadow)))
+        ops = ["read", "iadd"]
+        if nq >= 2:
+            ops += ["remove", "post_select", "post_select"]
+        op = pr.choice(ops)
+        if op == "read":
+            log.append(["read"])
+        elif op == "iadd":
+            other = rand_counts(pr, nq, kmax=8)
+            log.append(["+=", dict(other)])
+            h += Histogram(dict(other))
+            for k, v in other.items():
+                shadow[k] = shadow.get(k, 0) + v
+        elif op == "remove":
+            rem = set(pr.sample(range(nq), pr.randint(1, nq - 1)))
+            log.append(["remove_qubit_indices", sorted(rem)])
+            h.remove_qubit_indices(*rem)
+            shadow = marginal(shadow, rem)
+        else:
+            sel = {i: pr.choice("01") for i in pr.sample(range(nq), pr.randint(1, nq - 1))}
+            matching = {k: v for k, v in shadow.items() if all(k[i] == b for i, b in sel.items())}
+            if not matching:
+                # pick the outcomes of an existing bitstring so that something survives
+                k0 = pr.choice(sorted(shadow))
+                sel = {i: k0[i] for i in sel}
+                matching = {k: v for k, v in shadow.items() if all(k[i] == b for i, b in sel.items())}
+            log.append(["post_select", {str(i): b for i, b in sel.items()}])
+            h.post_select(sel)
+            shadow = marginal(matching, set(sel))
+        if not observe(log[-1][0]):
+            break
+    ctx.nontrivial(("hist_history", repr(log)))
+    ctx.sample({"sub": "hist_history", "steps": len(log)})
+
+
 def run_case(case, ctx):
-    {"group": run_group, "hist": run_hist, "bigresample": run_bigresample}[case["sub"]](case, ctx)
+    {"group": run_group, "hist": run_hist, "bigresample": run_bigresample, "hist_history": run_hist_history}[case["sub"]](case, ctx)
